@@ -235,6 +235,28 @@ PROPS["C20"] = {
     "level_note": "Trusted: Lean kernel + {propext, Classical.choice, Quot.sound}; Cost model and W hand-written; the growth clauses are theorems about W, connected to the real counter by measurement only (no all-data theorem cost <= W exists: the cost is not monotone in the length across a regime switch).",
 }
 
+PROPS["C04"] = {
+        "lean": ["NB.Props.C04"],
+        "gens": ["c04"],
+        "profiles": ["release", "debug"],
+        "trusted": ["std's Hasher is not modelled: the model exposes what Hash::hash feeds to it (sign discriminant, then length-prefixed digits, digits skipped for NoSign)",
+                    "derived Ord/Hash of `enum Sign` modelled by its discriminant (Minus=0, NoSign=1, Plus=2)",
+                    "Vec capacity / buffer reuse (clone_from, mem::replace, shrink_to_fit) is not modelled; it is exercised by the history stream only"],
+        "assumptions": COMMON_ASSUME,
+        "level_text": 'Theorems (all canonical values of any length / sign): biguint_canon_unique, bigint_repr_unique and biguint/bigint_export_congr (a canonical representation, hence every export, is a function of the integer); biguint_eq_iff_val, bigint_eq_iff_val (== exactly for equal integers); biguint_cmp_spec, bigint_cmp_spec, *_le_spec (cmp = numerical order); biguint_hash_iff, bigint_hash_iff (hash input equal exactly for equal integers); nosign_iff_zero; constructor theorems biguint_new/from_slice/assign_from_slice_spec, biguint_from_vec_spec, bigint_from_biguint/new/from_slice/assign_from_slice_spec (ARBITRARY u32 words incl. redundant high zeros and ANY Sign request, also inconsistent, give the canonical value); and the history theorem reachable_eq / reachable_canon / reachable_val: after ANY finite sequence of the in-place operations of NB.Core.uOps/iOps (+=, -=, set_zero, set_one, clone_from, assign_from_slice for both types, negation for BigInt) started from canonical registers, every register is exactly the canonical representation of the value computed by a spec machine over Nat/Int; history_*_indistinguishable combine both. The model is tied to the source by a 3-way differential run (release+debug) over comparison pairs, constructor inputs and 1500 (thorough 10k) register histories whose raw digit vectors, signs, pairwise ==/cmp/hash and exports are compared.',
+        "level_note": "Trusted: Lean kernel + {propext, Classical.choice, Quot.sound}; std's hasher is not modelled (only its input); Vec capacity / buffer reuse not modelled (exercised by the history stream only); the history theorem covers the operations listed in uOps/iOps today (*= /= %= <<= >>= &= |= ^= set_bit are one OpImpl + one soundness lemma each, not yet added); their Canon preservation is proved in C02/C03/C07.",
+    }
+
+PROPS["C19"] = {
+        "lean": ["NB.Props.C19"],
+        "gens": ["c19"],
+        "profiles": ["release", "debug"],
+        "trusted": ["Vec capacity / buffer reuse is not modelled (clone, clone_from, into_parts are plain copies)"],
+        "assumptions": COMMON_ASSUME,
+        "level_text": 'Theorems for ALL canonical BigInt/BigUint values: bigint_neg_spec (by value and by reference), bigint_abs_spec, bigint_signum_spec, bigint_is_positive/negative_spec, bigint_sign_spec, bigint_magnitude_spec, bigint_abs_sub_spec (= max(x-y,0), never panics), into_parts_from_biguint, from_biguint_into_parts, from_biguint_inconsistent, from_biguint_val (any Sign request), bigint_to_biguint_spec / _isSome (succeeds iff >= 0, both TryFrom forms), biguint_to_bigint_spec, biguint/bigint_consts, is_zero/is_one specs, set_zero_one_spec (no hypothesis on the old value), sign_neg_table, sign_mul_table. Each result is stated as the canonical representation of the mathematical result. Tied to the source by a 3-way differential run (release+debug) over all helpers on 0, +-1, single/multi-digit values, values cloned into larger buffers, all (Sign, magnitude) pairs, and abs_sub over all sign/order cases.',
+        "level_note": 'Trusted: Lean kernel + {propext, Classical.choice, Quot.sound}; Vec capacity / buffer reuse not modelled; correspondence strength bounded by the generators.',
+    }
+
 NOT_CLAIMED = {}
 
 if __name__ == "__main__":
